@@ -34,7 +34,7 @@ try:
     res["baseline_with_change"] = out.strip()
     res["baseline_passes"] = "# FAIL:  0" in out and "# ERROR: 0" in out
     demo = None
-    for fn in sorted(os.listdir(src)):
+    for fn in sorted(os.listdir(src), key=lambda f: (not f.endswith(".sh"), f)):
         if fn.startswith("demo"):
             demo = fn
             break
